@@ -61,9 +61,9 @@ PointTable == [
   conflict_sets     |-> P("tertiary.py:639-643 matches = defaultdict(set) of BasePair3D (str-hashed)", <<"map_base_pairs">>, "hashset", FALSE),
   conflict_sorted   |-> P("tertiary.py:645-647 sorted(pairs, key=pair_scoring_function): total key", <<"conflict_sets">>, "sorted", FALSE),
   conflict_drop     |-> P("tertiary.py:648 canonical.remove(pairs[-1])", <<"conflict_sorted">>, "greedy", FALSE),
-  bpseq             |-> P("tertiary.py:655-693 __generate_bpseq: dict insertion order", <<"conflict_drop">>, "list", FALSE),
+  bpseq             |-> P("tertiary.py:655-693 __generate_bpseq: dict insertion order", <<"conflict_drop">>, "list", TRUE),
   strands           |-> P("tertiary.py:536-558 strands_sequences", <<"residues">>, "list", FALSE),
-  ext_dot_bracket   |-> P("tertiary.py:942-972 extended_dot_bracket: rows filled first-come per LeontisWesthof member", <<"map_base_pairs">>, "greedy", FALSE),
+  ext_dot_bracket   |-> P("tertiary.py:942-972 extended_dot_bracket: rows filled first-come per LeontisWesthof member", <<"map_base_pairs">>, "greedy", TRUE),
   \* ---- BpSeq (common.py)
   stems             |-> P("common.py:509-531 __stems_entries", <<"bpseq">>, "list", FALSE),
   optimal_db        |-> P("common.py:705-815 dot_bracket: MILP, pulp variables sorted by name", <<"stems">>, "list", TRUE),
@@ -76,7 +76,7 @@ PointTable == [
   adb_unique        |-> P("common.py:911-930 set of frozenset((int,int))", <<"adb_components">>, "list", FALSE),
   all_dot_brackets  |-> P("common.py:933-941 solutions = set() of DotBracket (hash((sequence, structure))) -> list(solutions)", <<"adb_unique">>, "hashset", TRUE),
   \* ---- texts derived by the mapping
-  map_dot_bracket   |-> P("tertiary.py:709-721 Mapping2D3D.dot_bracket", <<"optimal_db", "strands">>, "bundle", FALSE),
+  map_dot_bracket   |-> P("tertiary.py:709-721 Mapping2D3D.dot_bracket", <<"optimal_db", "strands">>, "bundle", TRUE),
   map_all_dot_brackets |-> P("tertiary.py:923-940 Mapping2D3D.all_dot_brackets: in the order of BpSeq.all_dot_brackets", <<"all_dot_brackets">>, "list", TRUE),
   inter_stem        |-> P("tertiary.py:1016-1051 calculate_all_inter_stem_parameters: itertools.combinations", <<"elements">>, "list", FALSE),
   structure2d       |-> P("annotator.py:506-516 Structure2D(...)", <<"interactions", "bpseq", "map_dot_bracket", "ext_dot_bracket", "elements", "inter_stem">>, "bundle", FALSE),
